@@ -403,6 +403,8 @@ def idx_shape(e):
             return "usize(castling:%s)" % inner
         if c.endswith("From<u8> for usize>::from"):
             return "usize(u8:%s)" % inner
+        if c == "<board::square::Square as std::convert::From<u8>>::from":
+            return "square_of(%s)" % inner
         if c.endswith("Kind::get_color"):
             return "get_color(%s)" % inner
         return "%s(%s)" % (mir.short(c), inner)
@@ -424,6 +426,8 @@ def norm_shape(sh):
     same thing, and Square -> usize equals u8 -> usize of the square index (checked by `square-index-maps`)."""
     import re
     sh = re.sub(r"\b(v|payload)\b", "x", sh)
+    # usize::from(Square::from(i)) is usize::from(i): the two conversions are inverse on 0..64 (`square-index-maps`)
+    sh = re.sub(r"usize\(square:square_of\(([^()]*)\)\)", r"usize(sq:\1)", sh)
     return sh.replace("usize(square:", "usize(sq:").replace("usize(u8:", "usize(sq:")
 
 
@@ -458,7 +462,8 @@ def rule_same_words(ctx, strict=False):
     p = by_field.get("pieces", [])
     fshape = tuple(idx_shape(x) for x in p[0][0]) if len(p) == 1 else None
     same = fshape is not None and mut_shapes.get("pieces") is not None and tuple(map(norm_shape, fshape)) == tuple(map(norm_shape, mut_shapes["pieces"]))
-    ok = same and (not strict or fshape == ("usize(colour:get_color(payload))", "usize(kind:payload)", "usize(u8:payload)"))
+    ok = same and (not strict or fshape in (("usize(colour:get_color(payload))", "usize(kind:payload)", "usize(u8:payload)"),
+                                            ("usize(colour:get_color(payload))", "usize(kind:payload)", "usize(square:square_of(payload))")))
     ctx.check(ok, "From:pieces-word", "from-scratch: pieces[colour of piece][piece][square index] for the piece found on that square, the same index maps as add_or_remove_piece", fb.where(p[0][1] if p else 0),
               bad_what="from-scratch piece word is indexed %s but the incremental one %s" % (fshape, mut_shapes.get("pieces")))
     # castling: four words, each under castle_status(K) == Available with the same K
@@ -502,6 +507,12 @@ def rule_same_words(ctx, strict=False):
 
 RULES = [("writers", rule_writers), ("piece-pair", rule_piece_pair), ("turn-pair", rule_turn_pair), ("ep-pair", rule_ep_pair),
          ("castle-pair", rule_castle_pair), ("castle-revert", rule_castle_revert), ("ctor", rule_ctor), ("same-words", rule_same_words)]
+# "two games that arrive at the same position have the same key, and loading it from FEN gives that key too": the position a
+# game arrives at and the position a FEN loads must be the same engine state (en-passant file exactly after a double push as
+# the generator flagged it; the FEN's fields stored as they are)
+RULES += engine.premise_rules("c03", ["ep"])
+RULES += engine.premise_rules("c01", ["ply-builder", "capture-src"])
+RULES += engine.premise_rules("c07", ["fields", "side-ep", "history"])
 
 
 def run(tier):
